@@ -1056,7 +1056,7 @@ pub fn run_c07(tier: &str, seed: u64) -> Report {
             let ia = if x.has_assertion() && t % 3 == 0 { Some("ia") } else { None };
             // message lengths: the bodies of foreign tokens line up with Y's nonce/tag/signature layout at particular lengths
             // (empty, 16, 24, 32, 40, 48, 64 ... bytes), so those are driven explicitly besides JSON messages
-            const EDGE: [usize; 10] = [0, 1, 16, 24, 32, 40, 48, 64, 80, 96];
+            const EDGE: [usize; 16] = [0, 1, 16, 24, 32, 40, 48, 64, 80, 96, 160, 192, 208, 256, 300, 1000];
             let msg = match t % 3 {
                 0 => JSON_MSG.to_string(),
                 1 => "x".repeat(EDGE[(t / 3) % EDGE.len()]),
@@ -1145,4 +1145,4 @@ pub fn replay_c07(case: &Value) -> Report {
     r
 }
 
-pub const RULE_C07: &str = "all 56 ordered pairs (X,Y) of the 8 protocols (exhaustive) x 90 (thorough 3000) authentic X tokens (footer none/text, assertion none/text; JSON messages and messages of 0,1,16,24,32,40,48,64,80,96 bytes so that foreign bodies line up with Y's nonce/tag/signature layout), each first opened by its own protocol, x {verbatim, header text rewritten to Y's} x {core, generic, batteries} entry points of Y, with key material shared wherever the types allow (same 32 bytes for v1-v4 local, same Ed25519 pair for v2/v4 public, symmetric key bytes reused as Ed25519 public key and as P-384 x-coordinate, public key bytes reused as symmetric key) and Y's own pool key otherwise; oracle: any Ok is a violation. distinct_nontrivial = distinct (X, Y, layer, verbatim|relabelled + key class, rejection variant)";
+pub const RULE_C07: &str = "all 56 ordered pairs (X,Y) of the 8 protocols (exhaustive) x 90 (thorough 3000) authentic X tokens (footer none/text, assertion none/text; JSON messages and messages of 0,1,16,24,32,40,48,64,80,96,160,192,208,256,300,1000 bytes so that foreign bodies line up with (or exceed) Y's nonce/tag/signature layout), each first opened by its own protocol, x {verbatim, header text rewritten to Y's} x {core, generic, batteries} entry points of Y, with key material shared wherever the types allow (same 32 bytes for v1-v4 local, same Ed25519 pair for v2/v4 public, symmetric key bytes reused as Ed25519 public key and as P-384 x-coordinate, public key bytes reused as symmetric key) and Y's own pool key otherwise; oracle: any Ok is a violation. distinct_nontrivial = distinct (X, Y, layer, verbatim|relabelled + key class, rejection variant)";
